@@ -122,6 +122,12 @@ def res_matrix(step, A):
 
 def lib_input(step, A):
     R = res_matrix(step, A)
+    if step.get("offlink") is not None:
+        # a network built with an explicit adjacency: the matrix handed over also has values on pairs that are NOT links
+        # (a full table of pair resistances); the circuit is the one of the adjacency, those entries carry no admittance
+        Aa = np.array(A)
+        R = R.copy()
+        R[(Aa == 0) & ~np.eye(len(Aa), dtype=bool)] = step["offlink"]
     how = step.get("as", "array")
     if how == "int8":
         return np.array(R.real, dtype=np.int8)
@@ -194,6 +200,11 @@ def make_scenario(rng, sid, A, variant, nsteps=1, cplx0=False, law=None):
         steps.append(next_step(rng, A, steps[-1], kind, rscale))
         primes.append(PRIMES[(variant // 2 + k) % 3])
         orders.append("diam-first" if (variant + k) % 3 != 2 else "avg-first")
+    if variant % 4 == 1:
+        # explicit adjacency (odd variants): every plain array of this scenario also carries values off the links
+        for st in steps:
+            if st.get("as") is None and st.get("scale") is None:
+                st["offlink"] = 7.5 * rscale
     return {"id": sid, "adjacency": A, "ctor": "adjacency" if variant % 2 else "implicit",
             "steps": steps, "primes": primes, "orders": orders, "law": law}
 
